@@ -35,6 +35,7 @@ struct DimFixture {
 #include "c07.hpp"
 #include "c05.hpp"
 #include "c06.hpp"
+#include "c17.hpp"
 
 int main(int argc, char **argv) {
     if (argc < 3) {
@@ -46,6 +47,7 @@ int main(int argc, char **argv) {
     int rc = 2;
     if (prop == "c07") rc = drive("C07", opt, c07::body);
     if (prop == "c06") rc = drive("C06", opt, c06::body);
+    if (prop == "c17") rc = drive("C17", opt, c17::body);
     if (prop == "c05") rc = drive("C05", opt, c05::body);
     if (opt.own_work) rm_rf(opt.work);
     return rc;
